@@ -71,6 +71,15 @@ def _model_classes():
             if m.fail and m.systems.timestep == 1:
                 if m.fail == 'stop':       # e.g. next() on an exhausted iterator inside user code
                     raise StopIteration(f'execution a={m.a} b={m.b} failed')
+                if m.fail == 'lib-agent':  # the library's own errors, raised by ordinary misuse inside a system
+                    m.environment.remove_agent('nobody')
+                if m.fail == 'lib-component':
+                    m.environment.get_component(Rec, True)
+                if m.fail == 'lib-system':
+                    m.systems.remove_system('no-such-system')
+                if m.fail == 'lib-complete':
+                    m.complete()
+                    m.systems.execute_systems(True)
                 raise RuntimeError(f'execution a={m.a} b={m.b} failed')
             m.work += 1
             if m.systems.timestep >= m.stop:
@@ -150,7 +159,8 @@ def run_history(case, props=None):
         p = ctx.Process(target=child)
         p.start()
         wr.close()
-        if rd.poll(90):
+        expects_error = case[0] == 'batch' and case[6] is not None
+        if rd.poll(25 if expects_error else 90):
             res = rd.recv()
             p.join(5)
             if p.is_alive():
@@ -165,6 +175,10 @@ def run_history(case, props=None):
             p.kill()
         p.join(5)
     HANGS += 1
+    if expects_error:
+        # twice in a row: not the rare teardown hang of CPython's pool - the error of the failing execution never arrives
+        return [('C15', f'batch_run(processes={procs}) with a failing execution ({case[6]}) did not return within 25 s '
+                        f'(two attempts): the error never reaches the caller')]
     return []
 
 
@@ -253,17 +267,18 @@ def _run_history(case, props=None):
                 exp.append({c_: list(recs) for c_ in collectors})
         try:
             if fail_at is not None:
-                bad = 'stop' if fail_at.endswith('-stop') else True
+                bad = fail_at.split('-', 1)[1] if '-' in fail_at else True
                 params['fail'] = [False, bad] if fail_at.startswith('last') else [bad, False]
                 try:
                     B.batch_run(BM, params, collectors=collectors, processes=procs, max_timesteps=max(max_t, 3),
                                 repetitions=reps)
-                    out.append(('C15', f'a failing execution ({"StopIteration" if bad == "stop" else "RuntimeError"}, '
-                                       f'processes={procs}, position {fail_at}) was dropped silently'))
+                    out.append(('C15', f'a failing execution (kind {bad}, processes={procs}, position {fail_at}) was dropped '
+                                       f'silently'))
                 except (RuntimeError, StopIteration):
                     pass
                 except Exception as ex:
-                    if 'failed' not in str(ex):
+                    if type(ex).__name__ not in ('AgentNotFoundError', 'ComponentNotFoundError', 'ModelCompleteError',
+                                                 'SystemNotFoundError', 'MaybeEncodingError'):
                         out.append(('C15', f'failing execution surfaced as {type(ex).__name__}: {ex}'))
                 return out
             got = B.batch_run(BM, params, collectors=collectors, processes=procs, max_timesteps=max_t, repetitions=reps)
@@ -415,7 +430,7 @@ def histories(seed, budget, prop='C14'):
                     for coll in ('rec', ['rec', 'rec2'], None):
                         yield ('batch', g, reps, max_t, coll, 1, None)
         for g in grids[:2]:
-            for fail_at in ('first', 'last', 'first-stop', 'last-stop'):
+            for fail_at in ('first', 'last', 'first-stop', 'last-stop', 'first-lib-agent', 'last-lib-complete'):
                 yield ('batch', g, 1, 3, 'rec', 1, fail_at)
         yield ('batch_pl', {'a': [1, 2], 'b': [0, 1]}, [('remove', 'b'), ('add', 'b', [5]), ('remove', 'a')], 1, 0, 1, 'sum')
         yield ('batch_pl', {'a': [1, 2, 3]}, [('add', 'b', [0, 1]), ('remove', 'a'), ('add', 'a', 7)], 2, 0, 1, 'sum')
@@ -424,6 +439,10 @@ def histories(seed, budget, prop='C14'):
             yield ('batch', grids[3], 1, 2, ['rec', 'rec2'], procs, None)
             yield ('batch', grids[0], 1, 3, 'rec', procs, 'first')
             yield ('batch', grids[0], 1, 3, 'rec', procs, 'last-stop')
+            yield ('batch', grids[0], 1, 3, 'rec', procs, 'first-lib-agent')
+            yield ('batch', grids[1], 1, 3, 'rec', procs, 'last-lib-complete')
+            yield ('batch', grids[0], 1, 3, 'rec', procs, 'last-lib-component')
+            yield ('batch', grids[0], 1, 3, 'rec', procs, 'first-lib-system')
             yield ('batch', grids[1], 2, 3, 'rec', procs, 'first-stop')
     else:
         grids = [{'a': [1, 2, 3]}, {'a': [3, 1, 2], 'b': [0, 1]}, {'a': [2, 2, 1, 1]}, {'a': 5}]
